@@ -817,6 +817,24 @@ func (c *Ctx) rulePair(rule string) {
 								}
 							}
 						}
+						// a result that has arrived is never replaced: the store happens only where the entry has none yet
+						k2 := key(rule, c.M.Key(fn), "result stored only into an entry that has none yet")
+						fresh := false
+						for _, cond := range core.CondsAt(b) {
+							if x, neq, ok := core.NilCmp(cond.V); ok && neq != cond.True {
+								if ld, ok := x.(*ssa.UnOp); ok {
+									if fa3, ok := ld.X.(*ssa.FieldAddr); ok && fa3.X == fa.X && fieldName(fa3.X.Type(), fa3.Field) == resultField {
+										fresh = true
+									}
+								}
+							}
+						}
+						if fresh {
+							c.R.Ok(rule, k2, c.M.InstrPos(st), "result stored for a waiter", "dominated by `result == nil` of the same entry: the first result stands")
+						} else {
+							c.R.Bad(rule, k2, c.M.InstrPos(st), "a result that has already arrived can be overwritten",
+								"between the arrival of a run's result and its collection by the caller, a later error that is broadcast to all entries (end of stream, server-fatal error) replaces it: Execute reports a failure for a run whose work-done message arrived intact")
+						}
 						if woke {
 							c.R.Ok(rule, k, c.M.InstrPos(st), "result stored for a waiter", "the store is followed, before any unlock, by Signal/Broadcast on the same entry's condition")
 						} else {
